@@ -41,7 +41,7 @@ class C03(Cfg):
 
     def streams(self, tier, seed, work, dv):
         res = []
-        n, ln = (50, 18) if tier == "quick" else (1200, 26)
+        n, ln = (40, 18) if tier == "quick" else (1200, 26)
         path = os.path.join(work, "hist_C03.ops")
         lib.sh([dv, "gen", "--prop", "C03", "--seed", str(seed), "--n", str(n), "--len", str(ln), "--out", path], check=True)
         res.append(("histories C03 seed=%d n=%d" % (seed, n), path, False))
